@@ -324,7 +324,7 @@ pub fn property() -> Property {
         parts: vec![Box::new(GenPart {
             name: "single-call",
             rule: "see property rule",
-            cases: (150_000, 5_000_000),
+            cases: (1_500_000, 5_000_000),
             strategy,
             check,
             required_classes: &[
